@@ -10,6 +10,31 @@ PROPS = {
         level_text="Lean 4 theorems over all 2^32 DOS words and all constructor arguments (unpack/pack mutually inverse, constructor accepts exactly the documented ranges, no-panic for every constructible value, calendar conversions mutually inverse); the model is tied to the source by regenerated translation of the four pure functions (Tie obligations) and by correspondence for the time-crate conversions",
         level_note="Gregorian validity inside the `time` crate is a parameter (modelled as Spec calendar, validated by correspondence over every date 1975-2112); translator and harness are trusted as stated in DESIGN.md section 7",
     ),
+    "C20": dict(
+        props=["ZipVerif.Props.C20"],
+        tie=[],
+        streams=["clones"],
+        title="Cloned archive handles are independent and usable in parallel",
+        level_text="Lean 4 theorem over a system model (immutable archive + one data_start cell per entry + per-handle reader position/open file): for every archive, every number of handles, all scripts and every merge order of ATOMIC steps (by_index split into header-parse / load-free store / seek; data_start() = one load; everything else handle-local) each handle observes exactly what it observes alone (interleave_independent, interleave_local, cells_inv, store_value_determined); the model is tied to the source by correspondence: all call-level interleavings of 2-3 clones x template scripts on one thread plus random scripts, compared step by step with the model, and an implementation-only oracle (interleaved = solo on a fresh clone)",
+        level_note="partial w.r.t. real OS schedules and the memory model: the proof covers interleavings of single-location atomic steps (all a relaxed per-cell store/load needs); real multi-threaded runs are only observed by the clones.threads stress op (fresh archive per round, 2-32 threads, random orders/yields). `ZipArchive<R>: Send + Sync for R: Send + Sync` is decided by rustc through a compile-time assertion in the harness, rebuilt against the working tree on every run. Entry tables are read from the archive by driver glue; decoded content of deflated entries is given data",
+    ),
+    "C06": dict(
+        props=["ZipVerif.Props.C06"],
+        tie=[],
+        streams=["paths"],
+        title="Sanitised entry paths can never escape the extraction root",
+        technique="Lean 4 proof over a model of the two accessors and of std::path components()/push() (Unix) + differential correspondence with the implementation through the public API (exhaustive enumeration in the thorough tier) + implementation-side oracle",
+        level_text="Lean 4 theorems over every name (any length, any Unicode scalar values): enclosed_name answers Some exactly for NUL-free, relative names whose component walk never climbs above its start (enclosed_iff / enclosed_sound / enclosed_complete) and returns the name itself; lexical normalisation of base.join(result), defined as a stack machine, keeps every base as a prefix after every step (enclosed_join_inside, mangled_join_inside); mangled_name's PathBuf reads back as exactly the ordinary '/'-segments, in order, of the NUL-truncated name with '\\' read as '/' (mangled_spec), each non-empty, not '.'/'..', free of '/', '\\' and NUL (mangled_components_normal, mangled_relative); the depth counter cannot overflow (enclosed_depth_no_overflow). The model is tied to the source by correspondence through the public API (hand-built one-entry archive -> ZipArchive::by_index -> enclosed_name / mangled_name / sanitized_name, plus the streaming ZipFile and ZipFileData::file_name_sanitized), exhaustive in the thorough tier over the property's own enumeration (16.3 million names)",
+        level_note="std::path::Path::components and PathBuf::push (Unix) are parameters: modelled in Model/Paths.lean and validated by the same exhaustive stream; Windows prefixes are out of scope (the property says host Unix semantics). The two functions are tied by correspondence, not by translation (they use str/Path iterators outside the translator's subset). ZipStreamFileMetadata::{enclosed_name, mangled_name} sit in a pub(crate) module that is not re-exported on the pinned tree, so they are unreachable from outside the crate; they are one-line calls of the same two ZipFileData functions",
+    ),
+    "C19": dict(
+        props=["ZipVerif.Props.C19"],
+        tie=["ZipVerif.Tie.Cp437"],
+        streams=["text"],
+        title="Names and comments decode by the flagged encoding; raw bytes are kept",
+        level_text="Lean 4 theorems: the crate's CP437 table equals the Unicode consortium table (from CPython) on all 256 bytes and never panics; the ASCII fast path equals the table path; flag set -> lossy UTF-8 (maximal-subpart U+FFFD policy), flag clear -> CP437, total for every byte string, raw name kept verbatim; lossy and strict UTF-8 decoding invert encoding for every string of scalar values (unbounded induction) and strict decoding is sound; writer stores the UTF-8 bytes, sets the flag iff non-ASCII, and reads back the same string. to_char is tied by regenerated translation (kernel-checked over all 256 bytes); the decode branch, std's from_utf8_lossy and the writer path by correspondence",
+        level_note="String::from_utf8_lossy / str::from_utf8 / String::as_bytes are std: modelled from the Unicode standard (table 3-7) and RFC 3629 and validated by correspondence (all 1- and 2-byte sequences in quick, all 3-byte sequences in thorough, edge-biased random strings up to 64 KiB). Names longer than 65535 bytes are rejected by the writer (theorem + correspondence); the archive bytes around the name fields (that the reader finds the name where the writer put it) are C01/C02's subject, exercised here by correspondence only",
+    ),
 }
 
 ALLOWED_AXIOMS = {"propext", "Classical.choice", "Quot.sound"}
